@@ -125,6 +125,32 @@ def numeric_literal_tests(fd):
     return False
 
 
+def compared_cross_type(fd, node, v):
+    """Is the failing name compared (==, !=, in, not in, match value) somewhere in the function with a
+    literal that equals the runtime value v but has another type (True vs 1, 1 vs 1.0)?"""
+    names = {n.id for n in ast.walk(node) if isinstance(n, ast.Name)}
+    if not names or not isinstance(v, (bool, int, float)):
+        return False
+
+    def hit(consts):
+        for c in consts:
+            if isinstance(c, ast.Constant) and isinstance(c.value, (bool, int, float)):
+                try:
+                    if c.value == v and type(c.value) is not type(v):
+                        return True
+                except Exception:
+                    pass
+        return False
+    for n in ast.walk(fd):
+        if isinstance(n, ast.Compare) and any(isinstance(op, (ast.Eq, ast.NotEq, ast.In, ast.NotIn)) for op in n.ops):
+            if names & {x.id for x in ast.walk(n) if isinstance(x, ast.Name)} and hit(ast.walk(n)):
+                return True
+        if isinstance(n, ast.Match) and names & {x.id for x in ast.walk(n.subject) if isinstance(x, ast.Name)}:
+            if hit(x.value for x in ast.walk(n) if isinstance(x, ast.MatchValue)):
+                return True
+    return False
+
+
 def jump_in_try_or_with(fd):
     for n in ast.walk(fd):
         if isinstance(n, (ast.Try, ast.With)):
@@ -239,7 +265,7 @@ def run_module(funcs, col=None):
             fd = fdefs[fname]
             args_now = current["args"] or ()
             coarse_cross = (isinstance(v, bool) or any(_has_bool(a) for a in args_now)) and numeric_literal_tests(fd)
-            if cross_type_equal(v, ty):
+            if cross_type_equal(v, ty) or compared_cross_type(fd, node, v):
                 # True == 1: equality-based narrowing / KnownValue equality ignore the bool-int distinction
                 key = "cross-type-equality-narrowing"
             elif any("isinstance(_, float)" in c or "isinstance(_, complex)" in c for c in conds) or (
